@@ -126,6 +126,7 @@ func (tr *Transaction) put(kt keyType, key, value []byte) error {
 		return err
 	}
 	tr.seq++
+	verifAt("t.put", tr.seq, uint(kt), key, value)
 	return nil
 }
 
@@ -258,6 +259,7 @@ func (tr *Transaction) discard() {
 	// Don't hand out the sequence numbers used by this transaction again,
 	// iterators created from it may outlive it.
 	if tr.seq > tr.db.getSeq() {
+		verifAt("t.discard", tr.seq)
 		tr.db.setSeq(tr.seq)
 	}
 	// Discard transaction.
